@@ -59,6 +59,14 @@ def uniqAux : List (Option String) → List String → List String
 
 def uniq (servers : List (Option String)) : List String := uniqAux servers []
 
+/-- the destination lookups of the requested servers, in order; `none` when any record is missing. -/
+def destAll (d : String → Option Dest) : List String → Option (List Dest)
+  | [] => some []
+  | a :: r =>
+    match d a, destAll d r with
+    | some x, some xs => some (x :: xs)
+    | _, _ => none
+
 def setRoute (st : St) (h : String) (k : Nat) (v : Option Route) : St :=
   { st with route := fun h' k' => if h' = h ∧ k' = k then v else st.route h' k' }
 
@@ -77,7 +85,7 @@ def publish (f : Faults) (c : Client) (h : String) (servers : List (Option Strin
   else if req.length < 1 then (st, .invalidArgument)
   else if st.leased c.token then (st, .internal)            -- Acquire fails: lease conflict
   else if !st.owns c.token h then (st, .permissionDenied)
-  else match req.mapM st.dest with
+  else match destAll st.dest req with
     | none => (st, .internal)                                -- some destination record is missing
     | some dsts =>
       let (st', p) := putAll f c h dsts 1 st
